@@ -53,8 +53,13 @@ def safe_hash(v):
 
 
 def no_nested(v):
+    """No member of a union is a union, bare or under an Annotated wrapper (the constructor distributes the
+    annotation over the members)."""
+    if isinstance(v, V.AnnotatedValue):
+        v = v.value
     if isinstance(v, V.MultiValuedValue):
-        return all(not isinstance(x, V.MultiValuedValue) for x in v.vals)
+        return all(not isinstance(x, V.MultiValuedValue) and not (isinstance(x, V.AnnotatedValue) and isinstance(x.value, V.MultiValuedValue))
+                   for x in v.vals)
     return True
 
 
@@ -116,6 +121,10 @@ def check_laws(ra, rb, rc, tvmap_r):
     for res in (uab, l, r):
         if not no_nested(res):
             bad("flat", f"nested union in {res!r}", a, b)
+    # the constructor route: a union built directly from the operands is flat (it does not de-duplicate)
+    raw = V.MultiValuedValue([a, b])
+    if not no_nested(raw):
+        bad("flat-ctor", f"nested union in MultiValuedValue([{a}, {b}]) = {raw!r}", a, b)
     # Never identity
     un = U(a, V.NO_RETURN_VALUE)
     if not _is_unreachable_any(a) and norm(un) != norm(a):
